@@ -448,7 +448,11 @@ func (s *treeScn) barrierRetry(why string) bool {
 	for i := 0; i < 5; i++ {
 		if quiesce(s.tr, 400*time.Millisecond) {
 			s.tr.LogRaw("drv", "quiesce", fmt.Sprintf(`"ok":true,"why":%q`, why))
-			return true
+			time.Sleep(2 * time.Millisecond)
+			if quiesce(s.tr, 400*time.Millisecond) {
+				s.tr.LogRaw("drv", "quiesce", fmt.Sprintf(`"ok":true,"why":%q`, why+"-confirm"))
+				return true
+			}
 		}
 	}
 	s.tr.LogRaw("drv", "quiesce", fmt.Sprintf(`"ok":false,"why":%q`, why))
